@@ -1387,7 +1387,7 @@ class C14(Prop):
     n_thorough = 20000
     design_ref = "DESIGN.md §4 C14"
     assumptions = [
-        "proved for the lexer model of C10 (coq/model/Lexer.v, tied to preprocess/src/lexer.rs by C10's correspondence run and regenerated tables), partial: a blank (space, tab, line feed) directly after an identifier, keyword, reserved word, operator symbol or string literal leaves that token and, from there on, the sequence of non-whitespace tokens unchanged; so does any run of blanks, block comments, line comments with their line feed and line splices after such a token that does not begin with a slash, at the start of the file, after its first token, or after a token that follows a prefix of such tokens separated by single blanks (C14_*_partial); numeric literals in front of the trivia, prefixes whose tokens touch, and the layers after the lexer are not covered by a theorem",
+        "proved for the lexer model of C10 (coq/model/Lexer.v, tied to preprocess/src/lexer.rs by C10's correspondence run and regenerated tables), partial: a blank (space, tab, line feed) directly after an identifier, keyword, reserved word, operator symbol or string literal leaves that token and, from there on, the sequence of non-whitespace tokens unchanged; so does any run of blanks, block comments, line comments with their line feed and line splices after such a token that does not begin with a slash, at the start of the file, after its first token, or after a token that follows any prefix of such tokens and trivia, touching or not (C14_*_partial, the last one `C14_trivia_behind_a_token_prefix_partial`); numeric literals and `<` / `>` in front of the insertion point, and the layers after the lexer are not covered by a theorem",
         "proved: the location arithmetic of SourceManager (line/column decoding, per-file ranges); the model is compared with SourceManager on every offset of small multi-file sets",
         "observed on the implementation only (metamorphic): a program and the same program with trivia inserted at token boundaries (never directly after < or >, never between a #define name and its parenthesis, inline trivia only inside directive lines, #include/#pragma lines untouched) give byte-identical output and metadata on HLSL and MSL, or the same messages; k lines in front of every file move every reported line by k with file, column, message, source excerpt and caret line unchanged",
         "token boundaries are found by a coarse tokenizer of the harness whose pieces are unions of real tokens (identifiers, numbers with fraction / exponent / suffix, the period of a member access or swizzle, strings, runs of operator characters, single other characters), so every insertion point is a real token boundary (not every real boundary is tried); when a varied program differs, each insertion is tried alone and the first that is enough is reported with the text around it",
@@ -1675,8 +1675,8 @@ class C04(Prop):
         if impl.startswith("REJECT"):
             # read as explicit template arguments, the chain fails to parse, or parses and fails later (not a constant
             # expression, call of a non-function): the reported line has the shape either way
-            line = impl.split(" | ", 1)[1] if " | " in impl else ""
-            if _angle_then_paren(line):
+            parts = impl.split(" | ")[1:]
+            if any(_angle_then_paren(x) for x in parts):
                 return "comparison-chain-read-as-template-arguments"
             if re.search(r"redefinition of '(\w+)' \| template<(?:typename \w+, )*typename \1(?:, typename \w+)*, typename \1\b", impl) or re.search(r"redefinition of '(\w+)' \| template<typename \1, typename \1", impl):
                 return "template-parameters-named-after-one-struct-twice"
@@ -1840,6 +1840,18 @@ class C08(Prop):
         if impl.startswith("TIMEOUT"):
             if _angle_depth(_c08_program(case)) >= 16:
                 return "nested-template-arguments-exponential"
+            # macros that reach themselves through one another: the expansion terminates (C12) but can take time
+            # exponential in the nesting of the invocations
+            w = case.split()
+            if len(w) == 3 and w[1] == "Q":
+                import subprocess, c12ref
+                try:
+                    line = subprocess.run([os.path.join(os.path.dirname(os.path.dirname(os.path.abspath(__file__))), ".cache", "target", "debug", "implrun"), "c12line", w[2]],
+                                          capture_output=True, text=True, errors="replace", timeout=60).stdout.strip()
+                    if line and c12ref.program_facts(line)[0]:
+                        return "mutually-recursive-macros-expansion-time"
+                except Exception:
+                    pass
             # one initialiser per array element: with enough memory the allocation does not fail, it takes for ever
             if re.search(r"\bF corpus/programs/msl_struct_cast_of_huge_array_allocation\.rssl$", case.strip()) and case.startswith(("Msl", "Metal")):
                 return "msl-struct-cast-of-huge-array"
